@@ -2,6 +2,7 @@
 discharge them, aggregate per clause."""
 import ast
 import time
+import os
 import traceback
 
 import z3
@@ -157,6 +158,8 @@ class Verifier(object):
                 rep.dropped |= m.dropped
         except OutOfSubset as e:
             rep.status, rep.reason = "out_of_subset", str(e)
+            if os.environ.get("VERIF_DEBUG"):
+                rep.reason += "\n" + traceback.format_exc(limit=-12)
         except RecursionError:
             rep.status, rep.reason = "out_of_subset", "recursion limit in the symbolic executor"
         except Exception as e:   # engine bug: never a verdict
